@@ -230,10 +230,11 @@ static void run_pass(struct op *ops, int nops, unsigned char fill, struct res *r
       x->off0 = off0; x->dest = -7;
       cur_al = s->al; ncur = 0;
       char *txt = strdup(o->text);
-      if (o->kind == 'N') LIB(x->ret = asm_assemble_string_counting_chunks(s->al, txt, o->a, &x->dest));
-      else if (o->kind == 'A') LIB(x->ret = asm_assemble_str(s->al, txt));
+      int dep = strchr(o->flags, 'd') != NULL;   /* 'd': through the deprecated alias of the entry point (same contract) */
+      if (o->kind == 'N') { if (dep) LIB(x->ret = assemble_string_counting_chunks(s->al, txt, o->a, &x->dest)); else LIB(x->ret = asm_assemble_string_counting_chunks(s->al, txt, o->a, &x->dest)); }
+      else if (o->kind == 'A') { if (dep) LIB(x->ret = assemble_str(s->al, txt)); else LIB(x->ret = asm_assemble_str(s->al, txt)); }
       else if (o->kind == 'U') LIB(x->ret = asm_assemble_file_counting_chunks(s->al, txt, o->a, &x->dest));
-      else LIB(x->ret = asm_assemble_file(s->al, txt));
+      else { if (dep) LIB(x->ret = assemble_file(s->al, txt)); else LIB(x->ret = asm_assemble_file(s->al, txt)); }
       __real_free(txt);
       /* the string twin of a file call assembles the file's contents read by the harness */
       char *content = NULL;
@@ -244,7 +245,7 @@ static void run_pass(struct op *ops, int nops, unsigned char fill, struct res *r
       const char *twtext = isfile ? content : o->text;
       cur_al = NULL;
       x->off1 = asm_get_offset(s->al);
-      unsigned char *after = asm_get_code(s->al);
+      unsigned char *after = dep ? asm_get_buffer(s->al) : asm_get_code(s->al);
       x->moved = after != before;
       s->buf = s->ext ? s->buf : after;
       x->steps_total = ncur;
